@@ -101,7 +101,16 @@ func c18R1(c *Ctx, r *Report) {
 	r.Check("C18-R1", "fn=(*db.ResyncManagerDCP).invalidatePrincipals success requires=invalidateAllPrincipals|no-docs-changed", c.Pos(inv.Pos()), okPass && leak == nil,
 		"every success path invalidates all principals or passes the DocsChanged()==0 edge", "invalidatePrincipals can return success without invalidating the principals' computed channels and roles although documents changed (re-sequencing the principal documents does not recompute them): users keep the access computed under the old sync function")
 	fe := newFailEdge(c)
-	for _, fn := range append(c.PrivateHelpers(inv, 2), all, c.Func("(*db.DatabaseContext).updateAllPrincipalsSequences")) {
+	// storage sites of invalidatePrincipals, of a helper extracted from it that performs the invalidation, and of the two workers
+	scopeFns := []*ssa.Function{inv, all, c.Func("(*db.DatabaseContext).updateAllPrincipalsSequences")}
+	for _, site := range invAll {
+		if ci, ok := site.(ssa.CallInstruction); ok {
+			if cal := ci.Common().StaticCallee(); cal != nil && cal != all && c.InScope(cal) {
+				scopeFns = append(scopeFns, cal)
+			}
+		}
+	}
+	for _, fn := range scopeFns {
 		if fn == nil {
 			continue
 		}
